@@ -23,6 +23,13 @@ PROPS = {
             "assumptions": ["two different prices for one pair on one day are excluded (ambiguous by construction)", "the per-step truncation is applied from the valuation commodity outwards, as the statement says"]},
     "C03": {"level": "exploration", "engines": "S", "quick": {"cases": 1500, "secs": 45, "shrink_secs": 10}, "thorough": DEFAULT_T, "rule": GEN_RULE + "; price histories are tree-shaped (a unique derivation per commodity and day), sparse or daily, direct, inverse and chained; a fifth of the journals leave a commodity without a price before its first use",
             "assumptions": ["tolerance per cell: 1e-8 per truncating step that contributes (postings plus revaluation days)", "windows start at the first booking and --close=false (with a later --from the report shows changes only, which the statement's 'positions' does not describe)", "-m rules match asset/liability accounts only"]},
+    "C20": {"level": "exploration", "engines": "S", "quick": {"cases": 1500, "secs": 45, "shrink_secs": 10}, "thorough": DEFAULT_T, "rule": GEN_RULE + "; sub-checks: weights (and weights with a universe file and -m mappings) against balance -v -s . on the same partition; returns prints one line per period of that partition; closed-form journals: constant prices with external flows only (0.0%), initial purchases followed by price changes only (end/start - 1)",
+            "assumptions": ["weights are compared to 1e-6, returns to the printed precision (0.06 percentage points)", "--last is not combined with the closed-form return checks (the first shown period would include earlier days)", "weights are compared with the balance on windows that start at the first booking: with a later --from balance -v shows changes inside the window, not holdings"]},
+    "C16": {"level": "exploration", "engines": "S", "quick": {"cases": 1500, "secs": 45, "shrink_secs": 10}, "thorough": DEFAULT_T, "rule": GEN_RULE + "; tree-shaped price histories, every (ASCII-named) valuation commodity",
+            "assumptions": ["commodity names are ASCII letters (transcode rewrites other characters for beancount)"]},
+    "C15": {"level": "exploration", "engines": "S", "quick": {"cases": 1500, "secs": 45, "shrink_secs": 10}, "thorough": DEFAULT_T,
+            "rule": "training journals (empty, comments only, without transactions, one account pair, ties by construction, rich; optionally spread over an include tree) x target journals (placeholder on the credit side, the debit side, both, several per transaction, none; irregular spacing, comments) x placeholder names; each case runs infer under 6 schedules/map orders, once with --inplace, and formats the target with knut's own formatter as the comparison base",
+            "assumptions": ["a candidate is an account of a training booking that does not itself involve the placeholder"]},
     "C02": {"level": "exploration", "engines": "S", "quick": DEFAULT_Q, "thorough": DEFAULT_T, "rule": GEN_RULE, "assumptions": []},
     "C06": {
         "level": "exploration",
@@ -47,6 +54,9 @@ LEVEL_TEXT = {
     "C12": "Exploration: price graphs (trees, alternative paths, cycles, disconnected, redeclarations, inverse, zero) normalised at the library API of the instrumented price package under permuted map orders and through balance -v; results must be 1 for V, the latest direct declaration if one exists, otherwise a chain product of latest declarations; unconnected commodities must have no price.",
     "C14": "Fault enumeration for read faults (per workload every read operation x ENOENT/EACCES/EISDIR/EIO/truncated/bit-flipped is injected) plus sampled include graphs (self, cycles, diamond, missing), flag faults, byte soup and edge inputs; oracle: terminates within budgets, exit 0 or non-zero with a diagnostic, no panic or deadlock, stdout empty when a report command fails, an error in any file fails the command.",
     "C18": "Fault enumeration: per workload every file-system operation of the real natefinch/atomic write path (instrumented copy) is failed with every applicable errno, every byte offset of the payload write is cut short, and a crash is placed before every operation with every legal durable image enumerated; each target must hold exactly its old or exactly its new bytes.",
+    "C15": "Exploration: the output of infer is compared token by token with knut format of the target: only placeholder occurrences may change, each replacement must occur in the training journal and differ from the other account of its booking, without a candidate the booking stays; the output must parse, be identical under 6 schedules and map orders, and --inplace must write the same bytes.",
+    "C16": "Exploration: the beancount text is read back by a line-based reader: every transaction sums to zero in V, every posting's account is open on its date and not closed before, entries are chronological, and the multiset of transactions equals the journal's bookings (accruals expanded) plus the value adjustments predicted from the reference price model.",
+    "C20": "Exploration: weights (plain, and with a universe file and -m mappings) are compared with balance -v -s . on the same partition (commodity share, group = sum of members, top level = 100%); returns must print one line per period of that partition, 0.0% for constant prices with external flows only, end/start - 1 for periods without flows.",
     "C19": "Exploration: (a) no deadlock or hang, (b) loaded-directive census equals the union of the files, (c) failing stages stop everything and the genuine error is reported, all under the seeded serialising scheduler (engine S); (d) no data race under the race detector with seeded perturbation (engine R); (e) the shared registries are linearizable interning tables (porcupine over histories recorded under the scheduler at lock granularity).",
 }
 
@@ -57,7 +67,4 @@ NOT_APPLICABLE = [
     {"property_id": "C11", "reason": "date.NewPartition/Align are pure calendar arithmetic over given windows; nothing for a scheduler, clock or disk to vary"},
     {"property_id": "C13", "reason": "importers are single-threaded conversions of well-formed statements; the only nondeterminism among them (revolut2 assertion order) is exercised under C06's import sub-check"},
     {"property_id": "C17", "reason": "table rendering is pure formatting arithmetic on a finished table"},
-    {"property_id": "C15", "reason": "pending: check under construction in this session (will be claimed)"},
-    {"property_id": "C16", "reason": "pending: check under construction in this session (will be claimed)"},
-    {"property_id": "C20", "reason": "pending: check under construction in this session (will be claimed)"},
 ]
